@@ -230,6 +230,9 @@ def impl_query(conv, step):
         return dict(v) if isinstance(v, dict) or hasattr(v, "items") else (list(v) if m == "records" else v)
     if m == "trie":
         return dict(conv.trie.items())
+    if m == "trie_lpi":
+        r = conv.trie.longest_prefix_item(*args, None)      # the third-party trie itself, not through parse_uri
+        return None if r is None else tuple(r)
     if m in ("get_prefixes", "get_uri_prefixes"):
         return getattr(conv, m)(include_synonyms=s)
     if m == "get_record":
@@ -270,6 +273,9 @@ def jsonld_context(items) -> dict:
     return ctx
 
 
+CAPTURED: list = []   # (format, what was written, text of the file) of the files written by roundtrip_impl
+
+
 def roundtrip_impl(conv, fmt, syn, expand):
     """Write `conv` with the real writer into a real file and read the file back with the real reader."""
     import csv
@@ -291,6 +297,8 @@ def roundtrip_impl(conv, fmt, syn, expand):
             return curies.load_shacl(path, strict=not syn)
         if fmt == "tsv":
             curies.write_tsv(conv, path)
+            with open(path, newline="") as f:
+                CAPTURED.append(("tsv", [(r.prefix, r.uri_prefix) for r in conv.records], f.read()))
             with open(path, newline="") as f:
                 rows = list(csv.reader(f, delimiter="\t"))
             return curies.load_prefix_map({r[0]: r[1] for r in rows[1:]})
@@ -336,7 +344,21 @@ def run_impl(steps: list[dict], injected: dict | None = None, observer=None) -> 
             out.append({"bad": "no such slot"})   # its construction raised; the model says the same
             continue
         try:
-            if op == "init":
+            if op == "init" and st.get("via") in ("epm_dicts", "epm_records", "load_epm"):
+                # the same collection through the extended-prefix-map loader (dicts, Record objects, module function)
+                if st["via"] == "epm_dicts":
+                    data = [{"prefix": uncps(r["p"]), "uri_prefix": uncps(r["u"]),
+                             "prefix_synonyms": [uncps(x) for x in r["ps"]],
+                             "uri_prefix_synonyms": [uncps(x) for x in r["us"]],
+                             **({"pattern": uncps(r["pat"])} if r.get("pat") is not None else {})} for r in st["records"]]
+                else:
+                    data = [dec_record(r) for r in st["records"]]
+                if st["via"] == "load_epm":
+                    slots[st["dst"]] = curies.load_extended_prefix_map(data)
+                else:
+                    slots[st["dst"]] = Converter.from_extended_prefix_map(data)
+                out.append(None)
+            elif op == "init":
                 records = [dec_record(r) for r in st["records"]]
                 slots[st["dst"]] = Converter(records, delimiter=uncps(st.get("delim", [58])),
                                              strict=st.get("strict", True))
